@@ -11,6 +11,7 @@ package app_test
 // The ORACLE shares nothing with the Lean model: own lock book + big.Rat floor shares + own schedule counters.
 
 import (
+	"os"
 	"fmt"
 	"math/big"
 	"math/rand"
@@ -335,6 +336,101 @@ func runIncentives(t *testing.T, seed int64, n int, dir string) {
 
 		emit("incentives dump", dumpObs(), false)
 
+		// exportImport: the REAL ExportGenesis (through the JSON codec), every key of the incentives store deleted
+		// (records, the three reference stores, last id, lockable durations, by-denom index), then the REAL InitGenesis
+		// at the current block time.  Bank, lockup, protorev, pool-incentives are other modules and stay.
+		// Oracle (C19): every NOT-finished gauge keeps all its fields, sits in the store its fields + the block time
+		// dictate, last id and lockable durations are restored, nothing appears.  What the code is SEEN to lose
+		// (finished gauges are not exported) is a counter unless VERIF_EXPORT_IMPORT_LOSSES=fail.
+		loss := func(key, detail string) {
+			if os.Getenv("VERIF_EXPORT_IMPORT_LOSSES") != "count" {
+				o.Fail(key, detail)
+			} else {
+				o.Count("exportimport.LOSS." + key)
+			}
+		}
+		exportImport := func() {
+			ctx := h.Ctx
+			pre, _, _, _ := readGauges(ctx)
+			preLast := ik.GetLastGaugeID(ctx)
+			preLockable := fmt.Sprint(ik.GetLockableDurations(ctx))
+			cdc := h.App.AppCodec()
+			line := fmt.Sprintf("incentives exportimport %d", now.UnixNano())
+			var bz []byte
+			if !catch(func() { bz = cdc.MustMarshalJSON(ik.ExportGenesis(ctx)) }) {
+				emit(line, "panic", true)
+				o.Fail("incentives:export-import:export-panics", "")
+				return
+			}
+			store := ctx.KVStore(h.App.GetKey(incentivestypes.StoreKey))
+			var keys [][]byte
+			it := store.Iterator(nil, nil)
+			for ; it.Valid(); it.Next() {
+				keys = append(keys, append([]byte{}, it.Key()...))
+			}
+			it.Close()
+			for _, key := range keys {
+				store.Delete(key)
+			}
+			var gs incentivestypes.GenesisState
+			if !catch(func() { cdc.MustUnmarshalJSON(bz, &gs); ik.InitGenesis(ctx, gs) }) {
+				emit(line, "panic", true)
+				o.Fail("incentives:export-import:import-panics", "")
+				return
+			}
+			emit(line, "ok", true)
+			o.Count("exportimport")
+			post, _, _, _ := readGauges(ctx)
+			for _, id := range sortedIds(pre) {
+				g, pg := pre[id], post[id]
+				if g.status == "F" {
+					if pg == nil {
+						loss("incentives:export-import:finished-gauge-not-exported", fmt.Sprintf("gauge %d (filled %d of %d, distributed %s of %s)", id, g.filled, g.n, coinsStr(g.dist), coinsStr(g.coins)))
+						if g.perpetual || g.filled < g.n {
+							o.Count("exportimport.dropped-finished-gauge-that-still-accepts-topups")
+						}
+					}
+					continue
+				}
+				if pg == nil {
+					o.Fail("incentives:export-import:unfinished-gauge-dropped", fmt.Sprintf("gauge %d status %s", id, g.status))
+					continue
+				}
+				if pg.perpetual != g.perpetual || pg.denom != g.denom || pg.dur != g.dur || !pg.coins.Equal(g.coins) || !pg.dist.Equal(g.dist) ||
+					!pg.start.Equal(g.start) || pg.n != g.n || pg.filled != g.filled {
+					o.Fail("incentives:export-import:gauge-fields", fmt.Sprintf("gauge %d", id))
+				}
+				want := "A"
+				if now.Before(g.start) {
+					want = "U"
+				}
+				if pg.status != want {
+					o.Fail("incentives:export-import:status-not-by-fields-and-time", fmt.Sprintf("gauge %d was %s is %s expected %s", id, g.status, pg.status, want))
+				}
+				if pg.status != g.status {
+					o.Count("exportimport.reclassified." + g.status + "->" + pg.status) // F36
+				}
+			}
+			for _, id := range sortedIds(post) {
+				if pre[id] == nil {
+					o.Fail("incentives:export-import:gauge-appeared", fmt.Sprint(id))
+				}
+			}
+			if l := ik.GetLastGaugeID(ctx); l != preLast {
+				o.Fail("incentives:export-import:last-gauge-id", fmt.Sprintf("%d -> %d", preLast, l))
+			}
+			if l := fmt.Sprint(ik.GetLockableDurations(ctx)); l != preLockable {
+				o.Fail("incentives:export-import:lockable-durations", preLockable+" -> "+l)
+			}
+			var ld []string
+			for _, d := range ik.GetLockableDurations(ctx) {
+				ld = append(ld, fmt.Sprint(int64(d)))
+			}
+			emit("incentives lockable", "ok "+strings.Join(ld, ","), false)
+			emit("incentives dump", dumpObs(), true)
+			checkInvariants(ctx, "exportimport")
+		}
+
 		nEpochs := 4 + r.Intn(9)
 		for ep := 0; ep < nEpochs && lines < n; ep++ {
 			// ---------------- between epochs: gauge and lock operations
@@ -343,6 +439,9 @@ func runIncentives(t *testing.T, seed int64, n int, dir string) {
 				nOps += 3
 			}
 			for k := 0; k < nOps; k++ {
+				if r.Intn(8) == 0 {
+					exportImport()
+				}
 				switch x := r.Intn(20); {
 				case x < 5: // create gauge
 					perp := r.Intn(3) == 0
